@@ -845,7 +845,7 @@ func c03(r *core.Run) {
 		}
 	})
 
-	r.Check("D5/K3/not-found-vs-not-allowed", "404 exactly when methodsAllowed found no other method; otherwise 405 with Allow set to the computed list before WriteHeader; methodsAllowed is asked about (r.Method, cleaned path)", func(o *core.O) {
+	r.Check("D5/K3/not-found-vs-not-allowed", "404 exactly when methodsAllowed found no other method; otherwise, on every path on which methodsAllowed reported other methods, the Allow header of the response writer is set to the computed list before anything answers — the built-in WriteHeader(405) and the configured not-allowed handler alike (the list is lost to a handler that runs first: 405 without Allow); methodsAllowed is asked about (r.Method, cleaned path)", func(o *core.O) {
 		if !o.Need(serve != nil && len(serve.Params) == 3, "patRouter.ServeHTTP") {
 			return
 		}
@@ -890,8 +890,12 @@ func c03(r *core.Run) {
 			}
 			a := core.Args(c)
 			k, ok := core.ConstString(a[1])
-			return ok && k == "Allow" && core.IsResult(a[2], 0, core.Is(ma))
+			// the header map is the response writer's own (w.Header(), w derived from ServeHTTP's writer parameter)
+			hc, _ := core.ResultOf(core.Forward(a[0]))
+			ownHeader := hc != nil && b2Invoke(func(v ssa.Value) bool { return core.DependsOn(v, b2Param(serve, 1)) }, "Header")(hc)
+			return ok && k == "Allow" && core.IsResult(a[2], 0, core.Is(ma)) && ownHeader
 		}
+		isCustomNA := b2Invoke(core.FieldLoad("patRouter.notAllowed"), "ServeHTTP")
 		nfs, nas := core.Instrs(serve, isNF), core.Instrs(serve, isNA)
 		o.Site(len(nfs)+len(nas)+1, core.FuncName(serve))
 		if len(nfs) == 0 || len(core.Instrs(serve, is405)) == 0 {
@@ -918,6 +922,11 @@ func c03(r *core.Run) {
 		}
 		if w := core.Precedes(serve, isSetAllow, is405); w != nil {
 			o.Fail(p.InstrPos(w), "WriteHeader(405) reachable before the Allow header was set to the list computed by methodsAllowed (headers written after WriteHeader are lost)")
+		}
+		// the configured handler owns status and body, but it cannot compute the list (the trees are private): the
+		// header must be in place when it runs, on every path (round 9, after the defect fixed by 5475f0d)
+		if w := core.Precedes(serve, isSetAllow, isCustomNA); w != nil {
+			o.Fail(p.InstrPos(w), "the configured not-allowed handler runs before the Allow header was set to the list computed by methodsAllowed: a method mismatch is answered without Allow whenever a custom handler is configured")
 		}
 		// the 405/404 answers are not reachable once a handler was found: covered by D5/K2/dispatch (nothing runs after the handler)
 	})
